@@ -1,6 +1,7 @@
 import Nv.OracleIO
 import Nv.Model.C12
 import Nv.Gen.C12
+import Oracle.C13Lib
 /-!
 oracle_c12 — line protocol (one queue per script; the first line creates it):
   `new q <cap>` | `new async <cap>` | `new mux <cap>` | `new mq <ctrlCap> <reqCap>` | `new syncq` | `new priq <cap>` → `ok`
@@ -18,25 +19,32 @@ inductive St
   | none
   | lq (s : LQ)
   | pq (s : PQ)
+  | conc (s : C13O.St)   -- a concurrency script (`cnew …`): the transition system of C13, explored by `Oracle.C13Lib`
 
 def showOut : Out → String
   | .ok => "ok" | .closed => "closed" | .full => "full" | .ctrlFull => "ctrl-full"
-  | .val x => s!"v:{x}" | .nil => "nil" | .none => "none" | .wouldBlock => "would-block"
+  | .val x => (if x == 0 then "v:nil" else s!"v:{x}") | .nil => "nil" | .none => "none" | .wouldBlock => "would-block"
   | .bool b => if b then "true" else "false" | .num n => s!"{n}" | .badOp => "bad-op"
-  | .spun l fin => "spun:" ++ showList (fun v => s!"v:{v}") l ++ ":" ++
+  | .spun l fin => "spun:" ++ showList (fun v => if v == 0 then "v:nil" else s!"v:{v}") l ++ ":" ++
       (match fin with | .ok => "ok" | .closed => "closed" | .forever => "forever")
 
 def parseKind (s : String) : Option Kind :=
   if s == "q" then some .q else if s == "async" then some .async else if s == "mux" then some .mux
   else none
 
+/-- an item: a positive number, or `nil` (value 0 in the model) -/
+def parseItem (s : String) : Option Nat :=
+  if s == "nil" then some 0 else match parseNat? s with
+    | some 0 => none
+    | r => r
+
 def parseOp : List String → Option Op
-  | ["add", x] => (parseNat? x).map .add
-  | ["prior", x] => (parseNat? x).map .prior
-  | ["addc", x] => (parseNat? x).map .addCtrl
-  | ["priorc", x] => (parseNat? x).map .priorCtrl
-  | ["addany", x, r] => if r == "p" || r == "c" then (parseNat? x).map (fun x => .addAny x (r == "p")) else none
-  | ["addcany", x, r] => if r == "p" || r == "c" then (parseNat? x).map (fun x => .addCtrlAny x (r == "p")) else none
+  | ["add", x] => (parseItem x).map .add
+  | ["prior", x] => (parseItem x).map .prior
+  | ["addc", x] => (parseItem x).map .addCtrl
+  | ["priorc", x] => (parseItem x).map .priorCtrl
+  | ["addany", x, r] => if r == "p" || r == "c" then (parseItem x).map (fun x => .addAny x (r == "p")) else none
+  | ["addcany", x, r] => if r == "p" || r == "c" then (parseItem x).map (fun x => .addCtrlAny x (r == "p")) else none
   | ["size?"] => some .size
   | ["waitclose"] => some .waitClose
   | ["waitclear"] => some .waitClear
@@ -72,9 +80,38 @@ def step (st : St) (line : String) : St × String :=
     | some k, some a => (.lq (LQ.new k 0 a), "ok")
     | _, _ => (.none, "bad-op")
   | "new" :: _ => (.none, "bad-op")      -- an ill-formed `new` leaves no queue
+  | "cnew" :: rest =>
+    let r := C13O.step C13O.St.none (" ".intercalate ("new" :: rest))
+    (match r.1 with
+    | .none => (.none, r.2)
+    | st' => (.conc st', r.2))
   | ws => match st with
     | .none => (st, "bad-op")
-    | .lq s => match parseOp ws with
+    | .conc cs => let r := C13O.step cs line; (.conc r.1, r.2)
+    | .lq s =>
+      -- bulk forms: folds of single operations of the model
+      match ws with
+      | ["addn", n, x] =>
+        (match parseNat? n, parseNat? x with
+        | some n, some x =>
+          if n ≤ 100000 && 0 < x then
+            let r := (List.range n).foldl (fun (acc : LQ × Nat) i =>
+              let r := Nv.C12.step Nv.Gen.C12.cfg acc.1 (.add (x + i))
+              (r.1, acc.2 + (if r.2 == Out.ok then 1 else 0))) (s, 0)
+            (.lq r.1, s!"ok={r.2}")
+          else (st, "bad-op")
+        | _, _ => (st, "bad-op"))
+      | ["drain"] =>
+        if s.kind == .syncq then
+          let r := (List.range s.req.length).foldl (fun (acc : LQ × Nat) _ =>
+            match Nv.C12.step Nv.Gen.C12.cfg acc.1 .tryPop with
+            | (s', .val _) => (s', acc.2 + 1)
+            | (s', _) => (s', acc.2)) (s, 0)
+          (.lq r.1, s!"n:{r.2}")
+        else (st, "bad-op")
+      | _ =>
+      if s.kind == .syncq && ws.getLast? == some "nil" then (st, "bad-op") else
+      match parseOp ws with
       | some op => let r := Nv.C12.step Nv.Gen.C12.cfg s op; (.lq r.1, showOut r.2)
       | none => (st, "bad-op")
     | .pq s => match parsePOp ws with
